@@ -9,11 +9,11 @@ claim("C01",
       TRUST, 'DESIGN.md §3.2, §4 C01')
 claim("C02",
       "custom CFG path analysis (workspace-query purity, validate-before-write, status flow) + path-wise symbolic interpretation of workspace-size prologues with a max/min-polynomial dominance prover + stride-unit dataflow lint (incl. vector increments forwarded to BLAS, workspace block layout)",
-      "Structural necessary conditions of C02 decided for all paths of the anchored lapack/gonum routines in both workspace modes: a query (lwork == -1) stores only to work[0] and calls only queries/scalar helpers, and on every query-mode return the stored length is proved to be at least the minimum the routine itself enforces (found and repaired: the empty-problem answers of nine routines); arguments are validated before any operand write; every slice use is preceded by a branch on its length; no operand is addressed with a foreign leading dimension, a strided vector handed to BLAS keeps its own increment, a workspace block is used with one leading dimension and the next region starts that many rows on; callee statuses are used and failure is never reported as success. Backward stability, factor structure and that the enforced minimum suffices for the computation are NOT decided.",
+      "Structural necessary conditions of C02 decided for all paths of the anchored lapack/gonum routines in both workspace modes: a query (lwork == -1) stores only to work[0] and calls only queries/scalar helpers, and on every query-mode return the stored length is proved to be at least the minimum the routine itself enforces (found and repaired: the empty-problem answers of nine routines); arguments are validated before any operand write; every slice use is preceded by a branch on its length; no operand is addressed with a foreign leading dimension, a strided vector handed to BLAS keeps its own increment, a workspace block is used with one leading dimension and the next region starts that many rows on; callee statuses are used and failure is never reported as success; QR/RQ/LQ/QL reflectors reach only multiply/generate routines of the same family. Backward stability, factor structure and that the enforced minimum suffices for the computation are NOT decided.",
       TRUST, "DESIGN.md §3.2, §3.3, §3.3a, §4 C02")
 claim("C03",
       "custom CFG path analysis (workspace-query purity, validate-before-write, status flow) + path-wise symbolic interpretation of workspace-size prologues with a max/min-polynomial dominance prover + stride-unit dataflow lint (incl. workspace block layout)",
-      "The same rule set as C02 (including the sufficiency of workspace-query answers) on the eigenvalue/Schur/SVD routine files and shared auxiliaries (found and repaired the Dlaln2 ldb/ldx defect, the missing Dgebd2 length check and Dsyev's unset query answer for n == 0). Orthogonality, residual identities, ordering and convergence are NOT decided.",
+      "The same rule set as C02 (including the sufficiency of workspace-query answers and the pairing of reflector families: QR/RQ/LQ/QL factors reach only multipliers of the same kind) on the eigenvalue/Schur/SVD routine files and shared auxiliaries (found and repaired the Dlaln2 ldb/ldx defect, the missing Dgebd2 length check, Dsyev's unset query answer for n == 0 and two defects in Dggsvp3 that made mat.GSVD panic or return wrong factors). Orthogonality, residual identities, ordering and convergence are NOT decided.",
       TRUST, "DESIGN.md §3.2, §3.3, §4 C03")
 claim("C04",
       "custom AST/type dataflow lint (Data/Stride access-path pairing) + AST twin comparison (reuseAs sync pairs, bounds twins) + SSA constant-nil-receiver analysis + configuration sweep",
